@@ -175,6 +175,48 @@ def run_source(kind: str, data: bytes, sched, integ: str, entry: str, tmpdir: st
         raw = _Coop(data, sched)
         r = parse_from(integ, entry, raw if kind == "dribble-raw-coop" else io.BufferedReader(raw))
         log = raw.log
+    elif kind in ("http-chunked", "http-content-length"):
+        # a real http.client.HTTPResponse from a loopback server (what urllib.request.urlopen returns), the body sent with
+        # Transfer-Encoding: chunked in pieces of the schedule's sizes, or with a Content-Length
+        import http.client
+        import http.server
+        import threading
+        sizes = [max(1, x) for x in (sched or [64])]
+
+        class H(http.server.BaseHTTPRequestHandler):
+            protocol_version = "HTTP/1.1"
+
+            def log_message(self, *a):
+                pass
+
+            def do_GET(self):
+                self.send_response(200)
+                if kind == "http-chunked":
+                    self.send_header("Transfer-Encoding", "chunked")
+                    self.end_headers()
+                    pos, i = 0, 0
+                    while pos < len(data):
+                        n = min(sizes[min(i, len(sizes) - 1)], len(data) - pos, 4096)
+                        i += 1
+                        self.wfile.write(b"%x\r\n" % n + data[pos:pos + n] + b"\r\n")
+                        pos += n
+                    self.wfile.write(b"0\r\n\r\n")
+                else:
+                    self.send_header("Content-Length", str(len(data)))
+                    self.end_headers()
+                    self.wfile.write(data)
+        srv = http.server.HTTPServer(("127.0.0.1", 0), H)
+        t = threading.Thread(target=srv.handle_request, daemon=True)
+        t.start()
+        conn = http.client.HTTPConnection("127.0.0.1", srv.server_address[1], timeout=20)
+        try:
+            conn.request("GET", "/s.jelly")
+            resp = conn.getresponse()
+            r = parse_from(integ, entry, resp)
+        finally:
+            conn.close()
+            t.join(timeout=5)
+            srv.server_close()
     elif kind in ("dribble-buffered-after-preamble", "dribble-buffered-peeked"):
         # a non-seekable buffered reader (sock.makefile('rb'), os.fdopen(pipe, 'rb')) the caller has ALREADY used: it read a
         # protocol preamble line off it, or peeked at the first bytes - so part of the stream sits in the reader's buffer
@@ -242,7 +284,7 @@ def run_source(kind: str, data: bytes, sched, integ: str, entry: str, tmpdir: st
 KINDS = ["gzip-over-nonseekable", "seekable-dribble-buffered", "gzip-over-seekable-dribble", "buffered-tail1-of-16", "buffered-tail2-of-16",
          "buffered-tail1-of-8192", "buffered-tail2-of-8192", "file", "file-raw-buffered", "bytesio-offset", "file-offset", "gzip", "gzip-file", "bz2-file", "lzma-file", "dribble-raw", "dribble-buffered", "pipe-raw", "pipe-buffered",
          "socket-raw", "socket-buffered", "socket-timeout-raw-fd", "pipe-raw-fd", "dribble-raw-coop", "dribble-buffered-coop",
-         "dribble-buffered-after-preamble", "dribble-buffered-peeked"]
+         "dribble-buffered-after-preamble", "dribble-buffered-peeked", "http-chunked", "http-content-length"]
 
 
 _NEXT_OTHER: list = [None]
@@ -334,7 +376,7 @@ def _iteration(ctx, rng, i, tmpdir):
         scheds = [(n, sc) for n, sc in scheds if n in ("2-k", "all-65536")]
     for kind in kinds:
         these = scheds if kind.startswith(("dribble", "seekable-dribble")) else [rng.choice(scheds)]
-        if not kind.startswith(("dribble", "pipe", "socket", "seekable-dribble", "gzip-over")):
+        if not kind.startswith(("dribble", "pipe", "socket", "seekable-dribble", "gzip-over", "http")):
             these = [("n/a", None)]
         for sname, sched in these:
             got, exc, log = run_source(kind, data, sched, integ, entry, tmpdir)
